@@ -11,12 +11,14 @@ PROP = {
     "props_files": ["Props/C03.v", "Props/C03b.v"],
     "jobs": [{"component": "port", "comp_num": 1, "quick": 1600, "thorough": 60000, "timeout": 3000},
              {"component": "net", "comp_num": 70, "quick": 240, "thorough": 10000, "args": ["--stream", "4"], "timeout": 3000},
-             {"component": "net", "comp_num": 70, "quick": 480, "thorough": 20000, "args": ["--stream", "6"], "timeout": 3000}],
+             {"component": "net", "comp_num": 70, "quick": 480, "thorough": 20000, "args": ["--stream", "6"], "timeout": 3000},
+             # exact differential of the shared-queue model: several ports of one endpoint, receivers consuming on command
+             {"component": "sharedq", "comp_num": 3, "quick": 1200, "thorough": 60000, "timeout": 3000}],
     "design_ref": "DESIGN.md section 5, C03",
     "level_text": "Theorems (Coq, closed under the global context), for every configuration and every schedule: conservation of credits as an equality (no leak after any history of completed, failed or cancelled operations); the threshold lemma (an idle receiver leaves the sender at least four credits for every buffer >= 4); deadlock freedom (a running operation on an open port always has an enabled next step unless frames or credits are still under way, in which case an internal action is enabled); a measure that strictly decreases with every frame handed over and every successful credit request (no livelock). Tied to the code by the big-step differential with cancellation while waiting for credits and for a queue slot, and by the oracle `no operation pending after the drain phase`.",
     "level_note": "Trusted: Coq kernel, extraction/mrun (sample re-checked in-kernel), harness, quiescence barrier, Tokio primitives (mpsc FIFO, wake-ups). "
                   "The dispatcher between the event queue and the per-port queue is modelled as FIFO stages (TMux/TLink); cross-port interleaving is "
-                  "covered by the fifo-projection argument of the Mux model, not here. The cross-port statement is proved on a separate model (Chmux/SharedQueue.v, Props/C03b.v): the endpoint's one bounded event queue with FIFO permits (given also to a waiter that is not being polled), the order of the waits in Sender::send/send_chunks/connect (credits first, then a slot, then hand-over without a further wait) and the credit return (try, else a spawned task): after any history, system actions alone terminate within a measure and leave every port idle or out of its own credits, whatever the other ports' receivers do; the queue bound holds. That model is tied to the code only by oracle streams (net stream 4: a cancelled receive whose credit return waits for a slot, one-slot queue, then traffic and closes on another port; net stream 6: 1-3 credit-starved ports each with a pending send or multi-port open request, 1-2 slots, traffic on another port, then the starved receivers consume and every pending operation must complete), not by an exact differential. Lost wake-ups inside Tokio cannot be a model behaviour and would surface only as a pending operation in the harness oracle.",
+                  "covered by the fifo-projection argument of the Mux model, not here. The cross-port statement is proved on a separate model (Chmux/SharedQueue.v, Props/C03b.v): the endpoint's one bounded event queue with FIFO permits (given also to a waiter that is not being polled), the order of the waits in Sender::send/send_chunks/connect (credits first, then a slot, then hand-over without a further wait) and the credit return (try, else a spawned task): after any history, system actions alone terminate within a measure and leave every port idle or out of its own credits, whatever the other ports' receivers do; the queue bound holds. That model is tied to the code by an exact differential for data sends (component sharedq: 2-5 ports of one endpoint with shared_send_queue 1-3 and receive buffers 4..20, tasks sending 1..2rb+3 one-byte messages, cancellations, remote receivers that consume only on command, about half of the ports never consumed; after every step the frames on the wire per port and the pending flags are compared with the model run to quiescence, credits coming back by the threshold rule) and by oracle streams for what the differential does not drive (net stream 4: a cancelled receive whose credit return waits for a slot, one-slot queue, then traffic and closes on another port; net stream 6: 1-3 credit-starved ports each with a pending send or multi-port open request, 1-2 slots, traffic on another port, then the starved receivers consume and every pending operation must complete). Lost wake-ups inside Tokio cannot be a model behaviour and would surface only as a pending operation in the harness oracle.",
     "trivial_sig": r"malformed",
     "rule": _PORT_RULE,
     "assumptions": ["paused-clock quiescence barrier", "one port per connection in this component; port messages of other ports are not held back"],
